@@ -258,6 +258,9 @@ func rulesC07(e *Engine, r *Report) {
 		})
 		r.Check(ok, "R07.8", "client.(*recoverFile).GetSendSize: Σ(End-Beg) over the missing ranges", e.Pos(fn.Pos()), "the number of bytes a resumed file still has to send is not the sum of its missing ranges (the tracker would log it as sent too early or never)", 1)
 	}
+	// ---------------------------------------------------------------- R07.9
+	r.Rule("R07.9", "what the restarted sender and receiver learn from their logs is complete: `was this already logged as sent?` (WasSent, asked before the recovery writes a Sent record) and the receiver's cache refill both go through the day-file loop, which visits every calendar day of the range including the closing one - else today's records are missed, a file is logged as sent twice or a delivered file is taken for missing and sent again in full - shared with R18.5")
+	e.checkDayLoop(r, "R07.9")
 }
 
 // outermostLoop returns the header and back-edge terminators of the outermost
